@@ -102,6 +102,30 @@ CHECKS["C08"] = dict(
     technique="TLA+ grammar focus enumerated by TLC, parser observations validated by TLC",
     design="7/C08")
 
+CHECKS["C03"] = dict(
+    category="model_checking",
+    text="ShellRec.tla is an independent recursive-descent recogniser of the dialect (reserved words by position rules). TLC enumerates "
+         "by BFS every viable prefix up to MaxLen tokens extended by every token of a 30-token alphabet and by broken words, and by "
+         "simulation long accepted strings with all single-token deletions / duplications / swaps / insertions; each string is "
+         "classified by the spec.  The real parser runs on each string from a counting rune scanner; RecCheck.tla validates "
+         "acceptance, exact consumption, and for rejections a non-nil error whose parser.Error (if syntactic) carries the caller's "
+         "name and a token-start position inside the consumed text.",
+    note="Trusted: ShellRec.tla (cross-validated at design time against dash/bash and 7 M strings), the token renderer, TLC. Messages "
+         "are not compared. Unbalanced (( )) words are generated only at parenthesis depth 0 (known finding arith-in-paren).",
+    technique="TLA+ reference recogniser enumerated by TLC (BFS over viable prefixes, simulated mutations), observations validated by TLC",
+    design="7/C03")
+CHECKS["C04"] = dict(
+    category="model_checking",
+    text="PosWalk.tla is the position contract (spelling table of every position field, positions inside the source, Pos <= End, no "
+         "zero End, children inside parents, siblings in increasing order).  The driver walks the AST of every accepted source and "
+         "records one claim per node and per position field with the source text found there (character-indexed); TLC validates "
+         "every claim.  Sources: ShellGen programs and all their layout variants, accepted ShellRec strings, every string up to N "
+         "characters over the shell's special characters (CharGen.tla), multi-byte sources.",
+    note="Trusted: the walker (harness/cmd/driver/poswalk.go) enumerates every node and field; PosWalk.tla's spelling table; TLC. "
+         "End-containment of nodes holding a here-document is a known finding (non-contiguous text).",
+    technique="TLA+ contract validated by TLC on recorded AST walks of TLA+-generated sources",
+    design="7/C04")
+
 NOT_APPLICABLE = {}
 
 ALL = ["C%02d" % i for i in range(1, 21)]
